@@ -207,6 +207,7 @@ def case_quad(ctx, batch):
         qy = numpy.asarray(c.quadCell(img[..., ::-1, :]), dtype=object)
     ctx.paths += 1
     rp = lambda m: _replay_quad(m(img))
+    ctx.fallback = rp
     ctx.prove("mirror in x flips the x signal, keeps y", [], conj(eqs(qx[0], -q[0]) + eqs(qx[1], q[1])), replay=rp)
     ctx.prove("mirror in y flips the y signal, keeps x", [], conj(eqs(qy[1], -q[1]) + eqs(qy[0], q[0])), replay=rp)
     if batch:
@@ -295,6 +296,8 @@ def build_cases(tier):
             cases.append(("stack/cog/%s/thr=%s/2-D" % (nm, thr), case_stack, dict(fname="centre_of_gravity", shape=shp, args=(thr,), as2d=True)))
     cases.append(("scale/brightest/2x2", case_scale, dict(fname="brightest_pixel", shape=(2, 2), args=(half,))))
     cases.append(("stack/brightest/2x1x2/2-D", case_stack, dict(fname="brightest_pixel", shape=(2, 1, 2), args=(half,), as2d=True)))
+    # a fraction whose pixel count is not an integer (0.4 * 3 = 1.2): stack and single frame must round it the same way
+    cases.append(("stack/brightest/2x1x3/frac=2over5/2-D", case_stack, dict(fname="brightest_pixel", shape=(2, 1, 3), args=(Fr(2, 5),), as2d=True)))
     cases.append(("shift/cog/n=3", case_shift, dict(fname="centre_of_gravity", n=3, args=(0,))))
     cases.append(("shift/cog/n=4", case_shift, dict(fname="centre_of_gravity", n=4, args=(0,))))
     cases.append(("shift/cog/n=4/thr", case_shift, dict(fname="centre_of_gravity", n=4, args=(Fr(3, 10),))))
